@@ -52,10 +52,16 @@ func verifJoin(segs []string) string {
 func VerifC20Authorize(v *vrt.T) {
 	grants := map[string][]Privilege{}
 	masks := map[string]Privilege{}
+	// a grant is a LIST of privileges; listing an entry more than once (as the conversion of
+	// InfluxDB Enterprise permissions can) grants nothing extra
+	repeated := v.Choose("every grant entry listed twice", 2) == 1
 	for _, p := range verifGrantPaths {
 		if v.Bool("has" + p) {
 			m := Privilege(v.IntRange("mask"+p, 0, 31))
 			grants[p] = []Privilege{m}
+			if repeated {
+				grants[p] = []Privilege{m, m}
+			}
 			masks[p] = m
 		}
 	}
